@@ -220,6 +220,8 @@ def r2_truthful(chk: Check):
     for rd, zn in zero_defs:
         gs = [(rd.canon(t.ast, t), pol) for t, pol in g.guards(zn) if t.kind == "test"]
         ok = ok and any("donepath" in c and (c.endswith(".is_file()") or c.endswith(".exists()")) and pol is True for c, pol in gs)
+        # ... and only when the code is really unknown: a known exit code is never overridden
+        ok = ok and any(c.endswith(" is None") and "donepath" not in c and pol is True for c, pol in gs)
     chk.require(ok, chk.fkey(st, "code unknown -> marker"), "when the exit code is unknown, success (code 0) must be decided by the presence of the success marker", chk.loc(st.module, st.node))
 
 
